@@ -1,5 +1,5 @@
 (* C10 -- a group's typestate never claims a state its SubDevices are not in. *)
-From EC Require Import Base.Prelude Base.Bytes Cycle.Cycle Cycle.State Cycle.StateProofs.
+From EC Require Import Base.Prelude Base.Bytes Cycle.Cycle Cycle.State Cycle.StateProofs Cycle.WaitAll Cycle.WaitAllProofs Cycle.CycleProofs Cycle.CycleResults Cycle.CycleChecks.
 Local Open Scope N_scope.
 
 (* The per-cycle summaries, for EVERY list of reported 4-bit states (any length, the empty group
@@ -33,6 +33,28 @@ Theorem c10_transition_sound : forall c resps fs, (14 <= t_room c)%nat ->
 Proof. exact transition_sound. Qed.
 Print Assumptions c10_transition_sound.
 
+(* "the frame is fine" (frame_ok above) = every answer in it names the requested state and none
+   carries the error indication *)
+Theorem c10_frame_ok_spec : forall st ans, frame_ok st ans = true <->
+  Forall (fun a => al_error (fst a) = false /\ al_state (fst a) = st) ans.
+Proof. exact frame_ok_spec. Qed.
+Print Assumptions c10_frame_ok_spec.
+
+(* A member that signals an error while the group waits - before the timeout and before an answer
+   naming another state is met in the same frame - ends the transition with Err(StateTransition),
+   whichever state its status names. *)
+Theorem c10_error_while_waiting : forall f c subs ans more used r rest fs u,
+  is_state (S f) c subs (ans :: more) used = (r, rest, fs, u) ->
+  fs <> [] -> (S used < t_limit c)%nat -> frame_error (t_desired c) ans = true ->
+  r = Err TStateTransition.
+Proof. exact is_state_error. Qed.
+Print Assumptions c10_error_while_waiting.
+
+Theorem c10_frame_error_spec : forall st ans, frame_error st ans = true <->
+  exists pre a post, ans = pre ++ a :: post /\ frame_ok st pre = true /\ al_error (fst a) = true.
+Proof. exact frame_error_spec. Qed.
+Print Assumptions c10_frame_error_spec.
+
 (* Requests go to members only - also on the failing paths. *)
 Theorem c10_members_only : forall room subs st resps r fs,
   request_all room subs st resps = (r, fs) ->
@@ -62,3 +84,85 @@ Print Assumptions c10_no_room.
 Theorem c10_transition_ends : forall c resps, (14 <= t_room c)%nat -> fst (transition c resps) <> Hang.
 Proof. exact transition_ends. Qed.
 Print Assumptions c10_transition_ends.
+
+(* ---- the per-cycle state list (tx_rx, tx_rx_sync_system_time, tx_rx_dc) ---- *)
+
+(* A successful cycle - any variant, image, frame size that fits one check, group, build mode and
+   whatever the devices answer, however many frames the status checks need - has sent exactly one
+   status check to each member, in group order, and to nobody else; and its state list is what was
+   answered to those checks, in that order (cut at MAX_SUBDEVICES, the capacity of the list).  With
+   c10_summaries the summaries of that list say exactly what the devices reported. *)
+Theorem c10_cycle_states : forall c md v img resps st,
+  (c_len c <= length img)%nat ->
+  room_ok c (match v, c_dcref c with VSync, None => VPlain | _, _ => v end) ->
+  cycle c md v img resps = Ok st ->
+  checked (l_frames st) = c_subs c /\
+  l_states st = firstn (c_maxsd c) (states_of (pairs_of (l_frames st) resps)).
+Proof. exact cycle_states_exact. Qed.
+Print Assumptions c10_cycle_states.
+
+(* ---- MainDevice::wait_for_state: the network-wide wait by broadcast read ---- *)
+
+(* Ok means: the polls before the last did not end the wait, and the last one - received before the
+   transition timeout, counted in frames - was answered by exactly as many devices as the
+   MainDevice counted, shows no error flag and names the requested state. *)
+Theorem c10_wait_network_ok : forall c resps fs, wait_network c resps = (Ok tt, fs) ->
+  exists before data after,
+    resps = before ++ [[(data, b_n c)]] ++ after /\
+    al_error data = false /\ al_state data = b_desired c /\
+    fs = repeat [BStatus] (S (length before)) /\ (S (length before) < b_limit c)%nat.
+Proof. exact wait_network_ok. Qed.
+Print Assumptions c10_wait_network_ok.
+
+(* Device side of the broadcast read: the answer is the OR of the devices' status registers and
+   their count.  When the OR names a single state (INIT, PRE-OP, SAFE-OP, OP) without the error
+   flag, every device that answered reports exactly that state and no error.  (BOOTSTRAP is the
+   documented exception: INIT | PRE-OP = 3, c10_brd_bootstrap_ambiguous.) *)
+Theorem c10_brd_all_in_state : forall sts d, onehot d = true ->
+  Forall (fun s => N.land s 15 <> 0) sts ->
+  al_state (fst (brd_answer sts)) = d -> al_error (fst (brd_answer sts)) = false ->
+  Forall (fun s => N.land s 31 = d) sts /\ snd (brd_answer sts) = N.of_nat (length sts).
+Proof. exact brd_all_in_state. Qed.
+Print Assumptions c10_brd_all_in_state.
+
+Theorem c10_brd_bootstrap_ambiguous :
+  al_state (fst (brd_answer [1; 2])) = 3 /\ al_error (fst (brd_answer [1; 2])) = false.
+Proof. exact brd_bootstrap_ambiguous. Qed.
+Print Assumptions c10_brd_bootstrap_ambiguous.
+
+(* Both together: success of the network-wide wait, when the last poll was answered by the devices
+   [sts], means there are as many of them as the MainDevice counted and each is in the requested
+   state with no error flag. *)
+Theorem c10_wait_network_sound : forall c sts before after fs, onehot (b_desired c) = true ->
+  Forall (fun s => N.land s 15 <> 0) sts ->
+  wait_network c (before ++ [[brd_answer sts]] ++ after) = (Ok tt, fs) ->
+  length fs = S (length before) ->
+  N.of_nat (length sts) = b_n c /\ Forall (fun s => N.land s 31 = b_desired c) sts.
+Proof. exact wait_network_sound. Qed.
+Print Assumptions c10_wait_network_sound.
+
+(* An error flag from any device, or a device that does not answer, is an error - also when the
+   state bits already name the requested state. *)
+Theorem c10_wait_error_flag : forall f c data more used, (S used < b_limit c)%nat -> al_error data = true ->
+  forall fs, wait_all (S f) c ([(data, b_n c)] :: more) used <> (Ok tt, fs).
+Proof. exact wait_error_flag. Qed.
+Print Assumptions c10_wait_error_flag.
+
+Theorem c10_wait_missing_device : forall f c data wkc more used, (S used < b_limit c)%nat -> wkc <> b_n c ->
+  wait_all (S f) c ([(data, wkc)] :: more) used = (Err (TWkc (b_n c) wkc), [[BStatus]]).
+Proof. exact wait_missing_device. Qed.
+Print Assumptions c10_wait_missing_device.
+
+(* The wait always ends: success, an error or the timeout. *)
+Theorem c10_wait_network_ends : forall c resps, fst (wait_network c resps) <> Hang.
+Proof. exact wait_network_ends. Qed.
+Print Assumptions c10_wait_network_ends.
+
+(* not vacuous: three devices, two polls in OP, then all in SAFE-OP *)
+Theorem c10_wait_network_example :
+  wait_network {| b_n := 3; b_desired := 4; b_limit := 5 |}
+    [[brd_answer [8; 8; 4]]; [brd_answer [8; 4; 4]]; [brd_answer [4; 4; 4]]] = (Ok tt, [[BStatus]; [BStatus]; [BStatus]]) /\
+  fst (wait_network {| b_n := 3; b_desired := 4; b_limit := 5 |} [[brd_answer [4; 20; 4]]; [([17; 0], 1)]; [([17; 0], 1)]; [([17; 0], 1)]]) = Err TStateTransition /\
+  fst (wait_network {| b_n := 3; b_desired := 4; b_limit := 3 |} [[brd_answer [8; 8; 4]]; [brd_answer [8; 4; 4]]; [brd_answer [4; 4; 4]]]) = Err TTimeout.
+Proof. exact wait_network_example. Qed.
+Print Assumptions c10_wait_network_example.
